@@ -168,7 +168,16 @@ pub fn answer(ns: &'static Namespace<'static>, op: &Op) -> String {
         "has_relationship" => {
             let rec = record_of(&op.rec);
             let db = store(!op.rec.iter().any(|t| t == "noIds"));
-            let resolve = |r: &Ref| db.get(r.value.as_str()).map(|tags| record_of(&tags.iter().map(|s| s.to_string()).collect::<Vec<_>>()));
+            // bounded liveness of the walk: the store has four records, a terminating walk follows
+            // each ref a few times at most
+            let calls = std::cell::Cell::new(0u32);
+            let resolve = |r: &Ref| {
+                calls.set(calls.get() + 1);
+                if calls.get() > 2000 {
+                    panic!("VERIF relationship query made more than 2000 resolver callbacks over a store of 4 records: it does not terminate");
+                }
+                db.get(r.value.as_str()).map(|tags| record_of(&tags.iter().map(|s| s.to_string()).collect::<Vec<_>>()))
+            };
             let term = if op.b.is_empty() { None } else { Some(b.clone()) };
             let target = op.rec.iter().find_map(|t| t.strip_prefix("target=@")).map(Ref::from);
             ns.has_relationship(&rec, &a, &term, &target, &resolve).to_string()
@@ -802,6 +811,8 @@ pub fn run_case(case: &Case) -> Outcome {
     if let Some((msg, loc)) = &ex.panic {
         let (sig, detail) = if msg.contains("deadlock") {
             ("C14 deadlock".to_string(), format!("every live thread is blocked on a shard lock: {msg}"))
+        } else if msg.contains("VERIF relationship query") {
+            ("C14 non-termination has_relationship resolver-callbacks".to_string(), msg.clone())
         } else if msg.contains("max_steps") || msg.contains("exceeded") {
             ("C14 no progress within 10^6 scheduling steps".to_string(), msg.clone())
         } else {
